@@ -197,21 +197,29 @@ def install(reg):
 
     # ---- BytesIO / pickle (assumed)
     def bytesio(I, a, k, n):
-        return Obj("BytesIO", {"content": NONE})
+        return Obj("BytesIO", {"content": NONE, "pos": IV(0)})
 
     reg.handlers["BytesIO"] = bytesio
     reg.handlers["io.BytesIO"] = bytesio
 
     @H("BytesIO.seek")
     def bio_seek(I, a, k, n):
-        return NONE
+        assumed(I, "BytesIO: seek(k) moves the stream position; read() returns the bytes from the position to the end; writes advance the position")
+        a[0].f["pos"] = a[1]
+        return a[1]
 
     @H("BytesIO.read")
     def bio_read(I, a, k, n):
         c = a[0].f["content"]
         if isinstance(c, NoneV):
             raise Unsupported("read of empty BytesIO")
-        return c
+        pos = z3.simplify(to_int(a[0].f.get("pos", IV(0))))
+        a[0].f["pos"] = IV(c.n)
+        if z3.is_int_value(pos) and pos.as_long() == 0:
+            return c
+        # the bytes from the current position on (nothing when the position is at the end, as it is right after a write)
+        rest = z3.If(c.n - pos >= 0, c.n - pos, 0)
+        return Arr(rest, c.elem, lambda kk, _at=c.at, _p=pos: _at(kk + _p), f"tail({c.key},{pos})", dict(c.meta))
 
     def pickle_dump(I, a, k, n):
         assumed(I, "pickle.dump(state, fp): fp then holds pickle_bytes(state), a function of the state's value at the time of the call")
@@ -221,6 +229,7 @@ def install(reg):
         I.path.assume(nb >= 1, check=False)
         arr = base_arr(fresh("pickled"), "int", nb, {"bytes_of": state, "ident": ident})
         fp.f["content"] = arr
+        fp.f["pos"] = IV(nb)                       # the write leaves the position at the end of the stream
         I.path.event("pickle.dump", state, arr)
         return NONE
 
@@ -276,7 +285,7 @@ class DumpPickleToHdf(Contract):
         nb = z3.Int("n_bytes")
         I.path.assume(nb >= 0)
         payload = base_arr("payload_bytes", "int", nb)
-        memfp = Obj("BytesIO", {"content": payload})
+        memfp = Obj("BytesIO", {"content": payload, "pos": IV(nb)})       # as handed over by dump_state: just written, position at the end
         fp = Obj("H5File", {"root": root, "mode": Str("a"), "closed": B(False), "path": Str("f.h5")})
         kw = {"path": Str("checkpoint") if shape["path"] else NONE, "dsetname": Str("state")}
         return Pre(None, [memfp, fp], kw, ghost={"tgt": tgt, "payload": payload, "nb": nb})
